@@ -120,3 +120,32 @@ class AbsorbingLemma:
 
 def absorbing(step, pred: str, name: str = ""):
     LEMMAS.append(AbsorbingLemma(fold=step.__name__, pred=pred, name=name or f"{step.__name__}:absorbing[{pred}]"))
+
+
+def uninterp(name: str, arg_kinds: list, res_kind: str, native=None):
+    """Uninterpreted specification function (deterministic, otherwise unconstrained): stands for a
+    behaviour that is specified elsewhere (e.g. "the text the library edit returns")."""
+    import z3
+
+    from . import types as _ty
+    from .values import VBool, VInt, VStr
+
+    def srt(k):
+        return _ty.kind_sort(k)
+
+    f = z3.Function(name, *[srt(k) for k in arg_kinds], srt(res_kind))
+
+    def z3fn(ev, *args):
+        from .engine import unwrap, wrap_kind
+
+        t = f(*[unwrap(a) for a in args]) if arg_kinds else f()
+        return wrap_kind(res_kind, t)
+
+    def py(*args):
+        if native is None:
+            raise NotImplementedError(f"uninterpreted spec function {name} has no native reading")
+        return native(*args)
+
+    py.__name__ = name
+    SPECS[name] = Spec(name=name, kind="z3", py=py, z3fn=z3fn, globals={})
+    return py
